@@ -14,6 +14,23 @@ def parseCmlBond (j : Json) : P CmlBond := do
   | [a, b] => pure { ref1 := a, ref2 := b, order := ← parseRat (fieldD j "order" (Json.num 1)) }
   | _ => throw "bond: two references expected"
 
+def optField {α} (j : Json) (k : String) (f : Json → P α) : P (Option α) :=
+  match j.getObjVal? k with
+  | .ok v => if v.isNull then pure none else do pure (some (← f v))
+  | .error _ => pure none
+
+/-- one non-root element: {"ns": null | uri, "loc": local name, and whichever of the attributes id, el (elementType),
+    x3, y3, z3, refs (atomRefs2 split), order are present} -/
+def parseCmlElem (j : Json) : P CmlElem := do
+  pure { name := ⟨← optField j "ns" (·.getStr?), ← (← field j "loc").getStr?⟩
+         id := ← optField j "id" (·.getStr?)
+         elementType := ← optField j "el" (·.getStr?)
+         x3 := ← optField j "x3" parseRat
+         y3 := ← optField j "y3" parseRat
+         z3 := ← optField j "z3" parseRat
+         atomRefs2 := ← optField j "refs" parseStrList
+         order := ← optField j "order" parseRat }
+
 /-- `some result` when the op belongs to this handler -/
 def handleCml (op : String) (j : Json) : Option (P Json) :=
   match op with
@@ -21,6 +38,10 @@ def handleCml (op : String) (j : Json) : Option (P Json) :=
       let atoms ← (← arr (← field j "atoms")).mapM parseCmlAtom
       let bonds ← (← arr (← field j "bonds")).mapM parseCmlBond
       pure (resultToJson (loadCml atoms bonds))
+  | "cml_doc" => some do
+      -- the element layer: every non-root element of the document in document order
+      let elems ← (← arr (← field j "elems")).mapM parseCmlElem
+      pure (resultToJson (loadCmlDoc elems))
   | _ => none
 
 end Mofun.Drive
